@@ -174,6 +174,99 @@ def build(tier):
                            "individual": C06.make_agent(layout), "optimizer": (lambda ex, st, l: None)},
                    requires=[], frame_fields=False,
                    ensures=[f"opts_post_{layout.replace('-', '_')}(individual)"], replay="c02:coherent")
+    # ------------------------------------------------------------------ Mutations.mutation: dispatch, shared/target rebuild, hook, order
+    class NetD:
+        """evolvable network with a constructor description and weights (architecture token + weight value, both symbolic)"""
+
+        def __init__(self, name, arch=None, w=None, loaded=False):
+            self.name = name
+            self.arch = arch if arch is not None else z3.Int(fresh_name(name + ".arch"))
+            self.w = w if w is not None else z3.Real(fresh_name(name + ".w"))
+            self.loaded_from = None
+
+        def isinstance(self, ex, st, names):
+            return any(n in ("EvolvableModule", "Module") or n.endswith(".EvolvableModule") for n in names)
+
+        def getattr(self, ex, st, name):
+            if name == "init_dict":
+                return {"arch": self.arch}
+            if name == "state_dict":
+                return Fn(model=lambda ex, st, a, k: {"w": self.w, "__of__": self}, name=name)
+            if name == "load_state_dict":
+                def load(ex, st, a, k):
+                    self.w = a[0]["w"]
+                    self.loaded_from = a[0]["__of__"]
+                return Fn(model=load, name=name)
+            raise Undecided(f"network attribute {name}")
+    log = []
+    N_POP = 3
+
+    def mut_setup(ex, st, fr):
+        log.clear()
+        pop = []
+        for i in range(N_POP):
+            ind = Obj("model.Agent", label=f"agent{i}")
+            grp = Obj("agilerl.algorithms.core.registry.NetworkGroup", {"eval": "actor", "shared": ["actor_target"], "policy": True}, label="group")
+            grp2 = Obj("agilerl.algorithms.core.registry.NetworkGroup", {"eval": "critic", "shared": None, "policy": False}, label="group2")
+            reg = Obj("agilerl.algorithms.core.registry.MutationRegistry", {"groups": [grp, grp2]}, label="registry")
+            ind.fields.update(dict(registry=reg, actor=NetD(f"a{i}.actor"), actor_target=NetD(f"a{i}.actor_target"), critic=NetD(f"a{i}.critic"), index=i, mut=None,
+                                   mutation_hook=Fn(model=(lambda ex, st, a, k, i=i, ind=ind: log.append(("hook", i, ind.fields["actor_target"]))), name="mutation_hook")))
+            pop.append(ind)
+
+        def mk_choice(j):
+            def apply(ex, st, a, k):
+                ind = a[0]
+                log.append(("mutation", j, ind.fields["index"]))
+                ind.fields["actor"] = NetD(f"mutated{j}.actor")            # the mutation may rebuild the eval network with any architecture / weights
+                ind.fields["mut"] = f"kind{j}"
+                return ind
+            return Fn(model=apply, name=f"mutation_choice_{j}")
+        rng = Obj("model.rng", label="rng")
+        rng.fields["choice"] = Fn(model=lambda ex, st, a, k: [mk_choice(j) for j in range(N_POP)], name="choice")
+        me = z3.Bool("mutate_elite")
+        slf = Obj(MUT[:-1] if MUT.endswith(".") else MUT, label="self")
+        slf.fields.update(dict(rng=rng, mutate_elite=me, accelerator=None, device="cpu", mut_options=Opaque("options"), mut_proba=Opaque("proba"),
+                               pretraining_mut_options=Opaque("pre_options"), pretraining_mut_proba=Opaque("pre_proba"),
+                               to_device=Fn(model=lambda ex, st, a, k: a[0], name="to_device")))
+        st.locals.update(dict(self=slf, population=pop, pre_training_mut=z3.Bool("pre_training_mut")))
+        mut_setup.pop = pop
+
+    def mut_post(result):
+        pop = mut_setup.pop
+        if not (isinstance(result, list) and len(result) == N_POP and all(r is p for r, p in zip(result, pop))):
+            return z3.BoolVal(False)                                        # same agents, same order, same size
+        me = z3.Bool("mutate_elite")
+        out = []
+        muts = [e for e in log if e[0] == "mutation"]
+        hooks = [e for e in log if e[0] == "hook"]
+        if [h[1] for h in hooks] != list(range(N_POP)):
+            return z3.BoolVal(False)                                        # every agent's hook ran once
+        for i, ind in enumerate(pop):
+            applied = [m for m in muts if m[2] == i]
+            tgt = ind.fields["actor_target"]
+            if i == 0:
+                # the elite slot: either its sampled mutation or - when the elite is protected - no mutation at all
+                ok_applied = z3.If(me, z3.BoolVal(applied == [("mutation", 0, 0)]), z3.BoolVal(applied == [] and ind.fields["mut"] == "None"))
+            else:
+                ok_applied = z3.BoolVal(applied == [("mutation", i, i)] and ind.fields["mut"] == f"kind{i}")
+            out.append(ok_applied)
+            ev = ind.fields["actor"]
+            # the shared/target network was rebuilt from the (mutated) eval network: same architecture, same weights, before the hook ran
+            out.append(z3.BoolVal(isinstance(tgt, NetD) and tgt is not ev and tgt.loaded_from is ev and hooks[i][2] is tgt))
+            if isinstance(tgt, NetD):
+                out += [tgt.arch == ev.arch, tgt.w == ev.w]
+        return z3.And(*out)
+    P.specns["mut_post"] = mut_post
+    class NetCls:
+        """type(module): calling it with an init_dict builds a fresh network of that architecture (fresh weights)"""
+
+        def __init__(self, name):
+            self.name = name
+
+        def call(self, ex, st, args, kwargs):
+            return NetD(self.name + ".rebuilt", arch=kwargs["arch"])
+    NetD.pytype = lambda self, ex, st: NetCls(self.name)
+    P.contract(MUT + "mutation", setup=mut_setup, params={}, requires=[], frame_fields=False, ensures=["mut_post(result)"], replay="c02:coherent")
     P.native.append(dict(name="coherent", adapter="c02:coherent", thorough_only=True, payload={"mode": "search"},
                          bound="DQN, DDPG, TD3 (share_encoders=False), 3 seeds x 3 generations of architecture / parameter / activation / rl_hp mutations: "
                                "optimizers hold the current parameters and lr, targets shadow their networks, critics follow the policy, learn moves parameters"))
